@@ -9,7 +9,8 @@ logging.disable(logging.CRITICAL)
 class StopHistory(BaseException): pass
 
 class World:
-    def __init__(self):
+    def __init__(self, pid_space=None):
+        self.pid_space = pid_space          # None: fresh pids for ever; k: the kernel hands out pids from a space of k numbers and RECYCLES a pid once its process was reaped
         self.procs = []; self.next_pid = 1000; self.signals = []; self.handlers = {}; self.tick = 0; self.log = []; self.problems = []
         self.gets = []; self.shutdown_seen = False; self.starts_after_shutdown = 0; self.int_at_scan = False
 
@@ -23,7 +24,14 @@ def install(world, pm_mod):
             if world.shutdown_seen: world.starts_after_shutdown += 1
             for p in world.procs:                      # multiprocessing.BaseProcess.start() -> _cleanup(): reaps finished children
                 if p.started and not p.alive: p.reaped = True
-            self.pid = world.next_pid; world.next_pid += 1; self.alive = True; self.started = True; self.start_tick = world.tick; world.procs.append(self)
+            if world.pid_space:
+                busy = {p.pid for p in world.procs if p.alive or not p.reaped}
+                for _ in range(world.pid_space):
+                    cand = 1000 + (world.next_pid - 1000) % world.pid_space; world.next_pid += 1
+                    if cand not in busy: break
+                self.pid = cand
+            else: self.pid = world.next_pid; world.next_pid += 1
+            self.alive = True; self.started = True; self.start_tick = world.tick; world.procs.append(self)
             world.log.append(('start', self.name, self.pid, world.tick))
         def is_alive(self):
             if self.started and not self.alive: self.reaped = True
@@ -65,7 +73,7 @@ def install(world, pm_mod):
     class FakeEvent:
         def wait(self, t=None): return True
     def fake_kill(pid, sig):
-        p = next((p for p in world.procs if p.pid == pid), None)
+        p = next((p for p in reversed(world.procs) if p.pid == pid), None)          # the latest process that got this pid (pids may be recycled)
         world.signals.append((pid, sig, None if p is None else p.name, None if p is None else (p.alive, p.reaped)))
         if p is None or p.reaped: raise ProcessLookupError(3, 'No such process')
     def fake_signal(signum, handler): world.handlers[signum] = handler
@@ -76,10 +84,10 @@ def install(world, pm_mod):
     pm_mod.signal = type('signal', (), {'signal': staticmethod(fake_signal), 'SIGINT': _signal.SIGINT, 'SIGTERM': _signal.SIGTERM, 'SIGHUP': _signal.SIGHUP})
     pm_mod.current_process = lambda: FakeCP
 
-def run_history(nworkers, max_fails, history, via_run_worker=False):
+def run_history(nworkers, max_fails, history, via_run_worker=False, pid_space=None):
     import taskiq.cli.worker.process_manager as pm_mod
     from taskiq.cli.worker.args import WorkerArgs
-    world = World(); install(world, pm_mod)
+    world = World(pid_space); install(world, pm_mod)
     deaths = {}            # tick at which a process died -> checked for replacement two ticks later
     deaths_total = []
     def check_state(final=False):
@@ -177,6 +185,12 @@ def run(sc):
         hist = [((), 'HUPx300'), ((), None), ((), 'INT')]
         pr = run_history(nworkers, -1, list(hist) + [((), None), ((), None)]); n += 1
         if pr: fails.append({'key': f"workers={nworkers} burst", 'config': {'workers': nworkers, 'max_fails': -1, 'ticks': [list(map(str, h)) for h in hist]}, 'failed_clauses': pr[:5]})
+    for nworkers, space in ((1, 2), (2, 3), (2, 4)):          # a long life in a small pid space: a replacement gets the pid of a worker that died (and was reaped) earlier
+        for who in [(0,)] + ([(1,), (0, 1)] if nworkers > 1 else []):
+            hist = []
+            for _ in range(5): hist += [(who, None), ((), None)]
+            pr = run_history(nworkers, -1, hist + [((), 'INT'), ((), None), ((), None)], pid_space=space); n += 1
+            if pr: fails.append({'key': f"workers={nworkers} pid-space={space} deaths-of={who} x5", 'config': {'workers': nworkers, 'max_fails': -1, 'pid_space': space, 'ticks': [list(map(str, h)) for h in hist]}, 'failed_clauses': pr[:5]})
     for nworkers in (1, 2):          # the same through run_worker (shorter histories)
         subsets = [()] + [(i,) for i in range(nworkers)]
         events = [(d, s) for d in subsets for s in (None, 'HUP', 'INT')]
@@ -184,7 +198,7 @@ def run(sc):
             for hist in itertools.product(events, repeat=2):
                 pr = run_history(nworkers, max_fails, list(hist) + [((), None), ((), None)], via_run_worker=True); n += 1
                 if pr and len(fails) < 200: fails.append({'key': f"run_worker workers={nworkers} max_fails={max_fails} history={hist}", 'config': {'entry': 'run_worker', 'workers': nworkers, 'max_fails': max_fails, 'ticks': [list(map(str, h)) for h in hist]}, 'failed_clauses': pr[:5]})
-    return {'reproduced': bool(fails), 'runs': n, 'n_failures': len(fails), 'failures': fails[:400], 'bound': 'worker counts 1..2, all event histories of 3 ticks (+2 quiet ticks), max_fails in {-1,1,2}'}
+    return {'reproduced': bool(fails), 'runs': n, 'n_failures': len(fails), 'failures': fails[:400], 'bound': 'worker counts 1..2, all event histories of 3 ticks (+2 quiet ticks), max_fails in {-1,1,2}; bursts of 300 reload requests; 5 long histories (five deaths, then SIGINT) in pid spaces of 2-4 recycled pids'}
 
 if __name__ == '__main__':
     sc = json.load(open(sys.argv[1])) if len(sys.argv) > 1 else {}
